@@ -38,7 +38,10 @@ LEVEL_NOTE = ("Trusted: Coq kernel; the hand-written instances (C01/Ring.v, C07/
               "deep-compared with a re-load of its bytes; every public getter and read-only method of every submodule exercised "
               "in the target before the load and compared right after each restore and after every later step; train / eval and "
               "adapt schedules incl. evaluation-mode futures; live state_dict() transfer with both instances stepped side by "
-              "side). Found by that protocol on the unchanged tree: the stale Accumulator.pos/.neg memo after a load (known finding "
+              "side; every component also checkpointed NESTED in containers - ModuleDict, a user nn.Module attribute, Sequential > "
+              "module > ModuleDict - through the ROOT's state_dict() / load_state_dict(); in half of the cases state_dict() is the "
+              "first call at step k with no observer call since construction, so the record is saved at write positions != 0; "
+              "state_dict() is taken twice and must be idempotent; the source that saved is compared with a twin that did not). Found by that protocol on the unchanged tree: the stale Accumulator.pos/.neg memo after a load (known finding "
               "C12-accumulator-cache-stale-after-load; the signature is given only when the implementation side verified equal "
               "non-zero pending-part counts, a getter read before the load and an observed value equal to the target's old "
               "reduction) and the derived buffers of a freshly constructed MaxRateClassifier (repaired in /repo; no tolerance). Interpretation: a checkpoint taken before the first step (k=0) is loaded into a fresh "
@@ -138,7 +141,9 @@ def gen_cases(rng, n):
             dt = rng.choice([1.0, 0.5])
             kk = max(k, 1)
             c = {"kind": "reducer", "spec": {"cls": REDUCERS[(2 * (i // 8) + (i % 8 - 2)) % len(REDUCERS)], "dt": dt,
-                                             "duration": rng.choice([0.0, dt, 3 * dt]),
+                                             # record sizes 1..5: the write position at the checkpoint is k mod size
+                                             "duration": rng.choice([0.0, dt, 2 * dt, 3 * dt, 3 * dt, 4 * dt]),
+                                             "inclusive": rng.random() < 0.4,
                                              "inplace": rng.random() < 0.5},
                  "shape": rng.choice([[3], [2, 2]]), "T": T, "k": kk, "seed": seed, "prior": rng.randint(1, 5)}
             if c["spec"]["cls"] == "EventReducer":
@@ -182,6 +187,10 @@ def protocol_options(rng, c):
         c["transfer"] = "live"
     c["modes"] = rng.choice(["train", "eval_after_k", "eval_after_k", "mixed", "mixed"])
     c["target_frozen_last"] = rng.random() < 0.6
+    # checkpoint through the ROOT of a container holding the component(s) (torch calls state_dict / load_state_dict on the root only)
+    c["nest"] = rng.choice([None, "moduledict", "attr", "deep"])
+    # quiet source: no observer call before the state is saved at step k (dump() would align the record and tidy the state)
+    c["quiet_source"] = rng.random() < 0.5
     if c.get("cls") in ADAPTIVE or ((c.get("spec") or {}).get("neuron") or {}).get("cls") in ADAPTIVE:
         # learned adaptation: prefer futures / targets that run with adaptation frozen (evaluation after training)
         c["modes"] = rng.choice(["eval_after_k", "eval_after_k", "mixed"])
@@ -243,6 +252,7 @@ def run(ctx):
         "k_distribution": dict(Counter("k=0" if c["k"] == 0 else ("k=T" if c["k"] == c["T"] else "0<k<T") for c in cases if "k" in c)),
         "observers_per_case": dict(Counter(c["kind"] + ":" + str(r.get("observers", 0) // 10 * 10) + "+" for c, r in zip(cases, res) if r.get("ok") and c["kind"] != "fields")),
         "protocol_distribution": dict(Counter((c.get("second", "-") + ("/full" if c.get("second_full") else "") + ("/live" if c.get("transfer") else "") + "/" + c.get("modes", "-")) for c in cases if c["kind"] != "fields")),
+        "nesting_distribution": dict(Counter(str(c.get("nest")) + ("/quiet" if c.get("quiet_source") else "") for c in cases if c["kind"] != "fields")),
         "mismatches": mism, "oracle_failures": fails, "classes_with_field_tie": len(COMPONENTS), "traces_validated_against_impl": len(cases) - len(fails),
     }
 
